@@ -16,7 +16,7 @@
 From Coq Require Import NArith List Bool Lia.
 From KdV Require Import Fmt.Codec Fmt.CodecProofs Fmt.Rle Fmt.RleProofs
      Fmt.PfnModel Fmt.BitmapSpec Fmt.ImageSpec Fmt.DiskdumpModel Fmt.DiskdumpSpec Fmt.DiskdumpProofs
-     Fmt.S390Model Fmt.S390Spec Fmt.S390Proofs Fmt.LkcdModel Fmt.LkcdSpec Fmt.LkcdProofs Fmt.LkcdIndexModel Fmt.LkcdIndexProofs Fmt.ReadProofs
+     Fmt.S390Model Fmt.S390Spec Fmt.S390Proofs Fmt.LkcdModel Fmt.LkcdSpec Fmt.LkcdProofs Fmt.LkcdIndexModel Fmt.LkcdIndexProofs Fmt.ElfGeomModel Fmt.ElfGeomSpec Fmt.ElfGeomProofs Fmt.ElfGeomRoundtrip Fmt.ReadProofs
      Fmt.ElfModel Fmt.ElfSpec Fmt.ElfProofs Fmt.ElfRoundtrip Fmt.ElfOpenProofs
      Fmt.SadumpModel Fmt.SadumpSpec Fmt.SadumpProofs Fmt.SadumpOpenProofs.
 Import ListNotations.
@@ -212,8 +212,7 @@ Print Assumptions C01_s390_roundtrip.
     exactly the specified page: the file-backed bytes where a segment has
     them, zeroes elsewhere, and NODATA when no file-backed (resp. memory)
     byte lies in the page.
-    Not in this theorem: page size and pointer size (they come from
-    VMCOREINFO / the architecture tables, outside the reader), max_pfn. *)
+    Page size and pointer size: [C01_elf_geometry]; max_pfn: [C01_elf_max_pfn]. *)
 Theorem C01_elf_roundtrip : forall l segs pgsz,
   elf_wf l segs -> 0 < pgsz ->
   exists st0,
@@ -237,6 +236,29 @@ Theorem C01_elf_max_pfn : forall l segs shift,
   elf_max_pfn (expected l segs) shift = spec_elf_max_pfn segs (2^shift).
 Proof. exact elf_max_pfn_full. Qed.
 Print Assumptions C01_elf_max_pfn.
+
+(** Geometry.  [note_segs_hold]: the PT_NOTE segments of the dump hold ELF
+    notes (gABI layout: sizes, type, name and descriptor padded to 4 bytes), in
+    any number and order; VMCOREINFO notes (name stored with or without its
+    NUL) hold KEY=VALUE lines, other notes are arbitrary ([snote_ok]: a
+    PAGESIZE line carries a power of two in decimal, keys have no '=').  The
+    way [open_common] derives the two sizes - note walk, VMCOREINFO line
+    split, [strtoul] and the power-of-two test of [set_page_size]
+    (Attr/AttrBase.v, Attr/Hooks.v), [mach2arch], [arch_ptr_size],
+    [default_page_shift] - run on the encoded file gives: the byte order of
+    EI_DATA, the pointer size of the machine's ABI, and the page size that the
+    last PAGESIZE line announces, or else the architecture's fixed page size
+    (none for AArch64 / IA-64 / PowerPC: [None], such dumps must announce
+    theirs). *)
+Theorem C01_elf_geometry : forall l segs nss,
+  elf_wf l segs -> note_segs_hold l segs nss ->
+  exists st, elf_open (read_files [encode_elf l segs]) 1 = Ok st /\
+    es_be st = el_be l /\
+    elf_geometry (read_files [encode_elf l segs]) st =
+    Ok {| eg_ptr_size := spec_ptr_size (el_machine l) (el_64 l);
+          eg_page_size := spec_page_size (el_machine l) (concat nss) |}.
+Proof. exact elf_open_geometry. Qed.
+Print Assumptions C01_elf_geometry.
 
 (** the last-hit shortcut of [find_closest_*] never changes an answer *)
 Theorem C01_elf_shortcut_irrelevant : forall virt file st addr dist,
@@ -610,9 +632,12 @@ Definition ex_elf_layout : elf_layout :=
 Definition ex_seg (ty phys virt : N) (data : bytes) (memsz gap : N) : elf_seg :=
   {| sg_type := ty; sg_flags := 7; sg_phys := phys; sg_virt := virt; sg_data := data;
      sg_filesz := len data; sg_memsz := memsz; sg_align := 0; sg_gap := gap |}.
+Definition ex_notes : list snote :=
+  [ SOther {| vn_name := [70; 79; 79; 0]; vn_type := 7; vn_desc := [1; 2; 3; 4; 5] |};
+    SVmcoreinfo true [ ([79; 83], [54]); (key_PAGESIZE, [56; 49; 57; 50]) ] ].
 Definition ex_segs : list elf_seg :=
   [ ex_seg 1 4090 8192 [1; 2; 3; 4; 5; 6; 7; 8; 9; 10] 20 3;
-    ex_seg 4 0 0 [9; 9; 9; 9] 0 0;
+    ex_seg 4 0 0 (enc_notes true (map to_vnote ex_notes)) 0 0;
     ex_seg 1 4110 4096 [11; 12] 2 1 ].
 
 Example C01_nonvacuous_elf :
@@ -633,6 +658,25 @@ Proof.
   - eexists. split; [left; reflexivity | reflexivity].
   - left. eexists. split; [left; reflexivity |]. split; [reflexivity | discriminate].
   - repeat constructor; unfold is_load; cbn; intros; try discriminate; lia.
+Qed.
+
+(** the NOTE segment of the example holds two notes; the dump announces
+    8192-byte pages on a machine (PowerPC) that has no fixed page size *)
+Example C01_nonvacuous_elf_geometry :
+  note_segs_hold ex_elf_layout ex_segs [ex_notes] /\
+  spec_ptr_size (el_machine ex_elf_layout) (el_64 ex_elf_layout) = Some 4 /\
+  spec_page_size (el_machine ex_elf_layout) (concat [ex_notes]) = Some 8192.
+Proof.
+  split; [| split; reflexivity].
+  unfold note_segs_hold. cbn [ex_segs filter is_note_seg ex_seg sg_type N.eqb Pos.eqb].
+  constructor; [| constructor]. split; [reflexivity |].
+  constructor; [| constructor; [| constructor]].
+  - split; [repeat split; reflexivity | reflexivity].
+  - split; [repeat split; reflexivity |].
+    constructor; [| constructor; [| constructor]].
+    + split; [repeat split; repeat constructor; discriminate | intro H; discriminate H].
+    + split; [repeat split; repeat constructor; discriminate |].
+      intros _. exists 13. split; reflexivity.
 Qed.
 
 Definition ex_sd_layout : sd_layout :=
